@@ -416,6 +416,8 @@ func (m *Machine) resetPath() {
 	m.callDepth = 0
 	m.curFrame = nil
 	m.preempts = 0
+	m.posCount = nil
+	m.delays = nil
 	m.ctx.nfresh = 0
 	m.pendingEnd = nil
 	m.opaqueAlloc = false
@@ -600,7 +602,7 @@ func (m *Machine) reportModel(kind, msg string, definite bool) {
 func (m *Machine) mkViolation(kind, msg string, vals map[int]uint64, definite bool) *Violation {
 	site, pos, stack := m.site()
 	v := &Violation{Harness: m.harness, Kind: kind, Msg: msg, Site: site, Pos: pos, Stack: stack, Definite: definite, Preempts: m.preempts,
-		Prefix: append([]Choice{}, m.prefix[:min(m.depth, len(m.prefix))]...)}
+		Prefix: append([]Choice{}, m.prefix[:min(m.depth, len(m.prefix))]...), Delays: append([]DelaySite{}, m.delays...)}
 	if vals != nil {
 		v.Nd = m.ndVals(vals)
 	}
